@@ -715,7 +715,7 @@ impl<'a> Renderer<'a> {
                 // `label: instruction` on one line is the usual layout of assembly source
                 let after_label = matches!(body[i - 1], Stmt::Label { block: None, .. }) && matches!(s, Stmt::Instr { .. } | Stmt::Data { .. });
                 // two statements may share a line where the first cannot swallow the second (no operand)
-                let after_implied = matches!(&body[i - 1], Stmt::Instr { operand: None, mn, .. } if !matches!(mn.to_lowercase().as_str(), "asl" | "lsr" | "rol" | "ror")) && matches!(s, Stmt::Instr { .. } | Stmt::Data { .. });
+                let after_implied = matches!(&body[i - 1], Stmt::Instr { operand: None, mn, .. } if !matches!(mn.to_lowercase().as_str(), "asl" | "lsr" | "rol" | "ror")) && (matches!(s, Stmt::Instr { .. } | Stmt::Data { .. }) || matches!(s, Stmt::Label { name, .. } if name.chars().next().map_or(false, |c| c.is_ascii_alphabetic() || c == '_')));
                 if after_label {
                     self.slot(SlotKind::LabelSep, "label-sep", &format!("\n{}", ind));
                 } else if after_implied {
